@@ -8,7 +8,15 @@ From BU Require Export Lib.Bytes.
 From BU Require Export JsonPb.JsonPb.
 From BU Require Import CashAddr.CashAddr Base58.Base58 Bech32.Bech32 JsonPb.Codecs.
 From BU Require Import NoPanic.CashAddrNP NoPanic.Base58NP NoPanic.Bech32NP.
-From BU Require Import Bloom.Bloom NoPanic.BloomNP Merkle.Merkle Merkle.MerkleRun.
+From BU Require Import Bloom.Bloom NoPanic.BloomNP NoPanic.BloomHistNP Merkle.Merkle Merkle.MerkleRun.
+
+(* operations of a bloom history as the harness writes them (translated to Bloom.op by to_op) *)
+Inductive bop :=
+| BAdd (d : list N)
+| BMatches (d : list N)
+| BReload (loaded : bool) (bytes : list N) (nhash tweak flags : N)     (* Reload(nil) when loaded = false *)
+| BUnload
+| BIsLoaded.
 
 Inductive case :=
 | CashDec (s : list N) (ok : bool) (prefix payload : list N)       (* bchutil.DecodeCashAddress *)
@@ -22,8 +30,28 @@ Inductive case :=
                                                                     (* bloom.LoadFilter(msg).Matches(data) *)
 | BloomA (bytes : list N) (nhash tweak flags : N) (data : list N) (after : list N)
                                                                     (* ... .Add(data); MsgFilterLoad().Filter *)
-| MerkleX (maxtx ntx : N) (hashes : list (list N)) (flagbytes : list N) (accepted bad : bool).
+| MerkleX (maxtx ntx : N) (hashes : list (list N)) (flagbytes : list N) (accepted bad : bool)
+| BloomH (loaded : bool) (bytes : list N) (nhash tweak flags : N) (ops : list bop) (outs : list bool) (final_loaded : bool) (final : list N).
+                                                                    (* a history on ONE filter object: successive Reloads of different
+                                                                       sizes with Add / Matches between them; what each call returned
+                                                                       (true for calls without a result) and the array at the end *)
                                                                     (* NewMerkleBlockFromMsg + ExtractMatches: root != nil, BadTree() *)
+
+Definition to_op (o : bop) : Bloom.op :=
+  match o with
+  | BAdd d => OAdd d
+  | BMatches d => OMatches d
+  | BReload loaded bytes nhash tweak flags => OReload (if loaded then Some (MkMsg bytes nhash tweak flags) else None)
+  | BUnload => OUnload
+  | BIsLoaded => OIsLoaded
+  end.
+
+Fixpoint bools_eqb (a b : list bool) : bool :=
+  match a, b with
+  | [], [] => true
+  | x :: a', y :: b' => Bool.eqb x y && bools_eqb a' b'
+  | _, _ => false
+  end.
 
 Definition res_pair_eqb (a b : res (list N * list N)) : bool :=
   match a, b with
@@ -87,6 +115,17 @@ Definition check (c : case) : bool :=
   | BloomA bytes nhash tweak flags data after =>
       match BloomNP.add_checked true (Some (MkMsg bytes nhash tweak flags)) data with
       | Ok (Some m) => list_eqb (m_bytes m) after
+      | _ => false
+      end
+  | BloomH loaded bytes nhash tweak flags ops outs final_loaded final =>
+      let f := if loaded then Some (MkMsg bytes nhash tweak flags) else None in
+      match BloomHistNP.run_checked f (map to_op ops) with
+      | Ok (f', rs) =>
+          bools_eqb rs outs && bools_eqb (snd (Bloom.run f (map to_op ops))) outs &&
+          match f' with
+          | Some m => final_loaded && list_eqb (m_bytes m) final
+          | None => negb final_loaded
+          end
       | _ => false
       end
   | MerkleX maxtx ntx hashes flagbytes accepted bad =>
